@@ -371,6 +371,10 @@ func (e *env) peerScript(l *link, items int, allowBad bool) {
 		kind := sendValid
 		if allowBad {
 			switch dsim.Choose(8) {
+			case 4:
+				if e.cfg.inKey != nil && l.v2 {
+					kind = sendV1Plain // cannot be authenticated: rejected like a forgery
+				}
 			case 5:
 				if e.cfg.hasDialect() {
 					kind = sendBadChecksum
